@@ -65,6 +65,8 @@ type frame struct {
 	curInstr         ssa.Instruction
 	depth            int
 	isInit           bool
+	loopLimit        int
+	blockHits        map[*ssa.BasicBlock]int
 }
 
 func (fr *frame) get(key ssa.Value) value {
@@ -211,6 +213,13 @@ func (i *interpreter) evalInit(fr *frame, v ssa.Value, depth int) value {
 			if fa, ok := s.Addr.(*ssa.FieldAddr); ok && fa.X == ssa.Value(x) {
 				fld := &(*addr).(structure)[fa.Field]
 				store(deref(fa.Type()), fld, i.evalInit(fr, s.Val, depth+1))
+			} else if ia, ok := s.Addr.(*ssa.IndexAddr); ok && ia.X == ssa.Value(x) {
+				arr, isArr := (*addr).(array)
+				idx := asInt64(i.evalInit(fr, ia.Index, depth+1))
+				if !isArr || idx < 0 || idx >= int64(len(arr)) {
+					panic(engineError{"lazy global init: unsupported element store in " + fr.fn.String()})
+				}
+				store(deref(ia.Type()), &arr[idx], i.evalInit(fr, s.Val, depth+1))
 			} else if s.Addr == ssa.Value(x) {
 				store(deref(x.Type()), addr, i.evalInit(fr, s.Val, depth+1))
 			}
@@ -757,6 +766,13 @@ func callSSA(i *interpreter, caller *frame, callpos token.Pos, fn *ssa.Function,
 		}
 	}
 
+	if ll := i.path.loopLimits; len(ll) > 0 {
+		if max, ok := ll[funcShort(fn.String())]; ok {
+			fr.loopLimit = max
+			fr.blockHits = map[*ssa.BasicBlock]int{}
+		}
+	}
+
 	fr.isInit = fn.Synthetic == "package initializer"
 	fr.env = make(map[ssa.Value]value)
 	fr.block = fn.Blocks[0]
@@ -801,6 +817,12 @@ func runFrame(fr *frame) {
 	}()
 
 	for {
+		if fr.loopLimit > 0 {
+			fr.blockHits[fr.block]++
+			if n := fr.blockHits[fr.block]; n > fr.loopLimit {
+				panic(nonTermination{fn: fr.fn.String(), depth: n, loop: true})
+			}
+		}
 		nonPhis := executePhis(fr)
 		for _, instr := range nonPhis {
 			if fr.i.tracing {
